@@ -166,13 +166,15 @@ Definition chk_obs (s : state) (o : obs) : bool :=
 
 (** * traces *)
 Inductive item :=
-| E (o : op) (r : ret)          (* an operation and what the implementation returned *)
+| E (o : op) (r : ret)          (* a store-level operation and what the implementation returned *)
+| D (n : Z) (r : ret)           (* GrafeoDB::delete_node (detaching since 109e5bf) and what it returned *)
 | O (o : obs).                  (* an observation of the implementation *)
 
 Fixpoint chk_items (s : state) (t : list item) : bool :=
   match t with
   | [] => true
   | E o r :: rest => let '(s1, r1) := step s o in ret_eqb r1 r && chk_items s1 rest
+  | D n r :: rest => let '(s1, r1) := dstep s (DbDeleteNode n) in ret_eqb r1 r && chk_items s1 rest
   | O o :: rest => chk_obs s o && chk_items s rest
   end.
 
@@ -184,6 +186,7 @@ Fixpoint diag_items (s : state) (t : list item) (i : Z) : option Z :=
   match t with
   | [] => None
   | E o r :: rest => let '(s1, r1) := step s o in if ret_eqb r1 r then diag_items s1 rest (i + 1) else Some i
+  | D n r :: rest => let '(s1, r1) := dstep s (DbDeleteNode n) in if ret_eqb r1 r then diag_items s1 rest (i + 1) else Some i
   | O o :: rest => if chk_obs s o then diag_items s rest (i + 1) else Some i
   end.
 Definition diag_trace (backward : bool) (t : list item) : option Z := diag_items (init backward) t 0.
@@ -198,6 +201,7 @@ Fixpoint chk_items_pre (s : state) (t : list item) : bool :=
   match t with
   | [] => true
   | E o r :: rest => let '(s1, r1) := step_pre s o in ret_eqb r1 r && chk_items_pre s1 rest
+  | D n r :: rest => false
   | O o :: rest => chk_obs s o && chk_items_pre s rest
   end.
 Definition chk_trace_pre (backward : bool) (t : list item) : bool := chk_items_pre (init backward) t.
@@ -206,53 +210,24 @@ Definition chk_trace_pre (backward : bool) (t : list item) : bool := chk_items_p
 Definition chk_constants (chunk delta hot_kept : Z) : bool :=
   (CHUNK_CAPACITY =? chunk) && (DELTA_COMPACTION_THRESHOLD =? delta) && (COLD_COMPRESSION_THRESHOLD =? hot_kept).
 
-(** * finding classes *)
+(** * finding classes (open findings only: K6 and K8; the classes of the repaired K1, K3, K4, K5, K7
+    and of the GrafeoDB-level K2 are gone -- a failure of those kinds is a violation)
 
-Definition ops_of (t : list item) : list op :=
-  filter_map (fun i => match i with E o _ => Some o | O _ => None end) t.
+    A history is given at the GrafeoDB level ([dop]); [dexpand] is the store-level history it
+    amounts to. *)
 
-(** the oracle failure "a deleted/non-existent node shows up as an endpoint or neighbour" is the
-    listed finding when the history is in the class and the model predicts a dangling edge *)
-Definition k_dangling (backward : bool) (ops : list op) : bool :=
-  hist_dangles (init backward) ops && negb (no_dangling (run (init backward) ops)).
+(** C14-K8: a deleted / never-created node shows up as an endpoint or neighbour -- the listed
+    finding when a store-level operation of the class occurred and the model predicts a dangling edge *)
+Definition k_dangling (backward : bool) (ds : list dop) : bool :=
+  hist_dangles (init backward) (dexpand (init backward) ds) && negb (no_dangling (drun (init backward) ds)).
 
-(** C14-K3 / K6: index lookup differs from the scan *)
-Definition k_index_float (backward : bool) (ops : list op) (key : Z) (q : value) : bool :=
-  let s := run (init backward) ops in
-  has_float_special q && has_index s key
+(** C14-K6: index lookup differs from the scan after a property was written to a dead id *)
+Definition k_index_dead (backward : bool) (ds : list dop) (key : Z) (q : value) : bool :=
+  let s := drun (init backward) ds in
+  hist_sets_dead (init backward) (dexpand (init backward) ds) && has_index s key
   && negb (zlist_eqb (zsortf (find_by_prop s key q)) (zsortf (scan_by_prop s key q))).
-Definition k_index_dead (backward : bool) (ops : list op) (key : Z) (q : value) : bool :=
-  let s := run (init backward) ops in
-  hist_sets_dead (init backward) ops && has_index s key
-  && negb (zlist_eqb (zsortf (find_by_prop s key q)) (zsortf (scan_by_prop s key q))).
-
-(** K3 / K6 through find_nodes_by_properties *)
-Definition k_props (backward : bool) (ops : list op) (conds : list (Z * value)) : bool :=
-  let s := run (init backward) ops in
-  (existsb (fun c => has_float_special (snd c)) conds || hist_sets_dead (init backward) ops)
+Definition k_props (backward : bool) (ds : list dop) (conds : list (Z * value)) : bool :=
+  let s := drun (init backward) ds in
+  hist_sets_dead (init backward) (dexpand (init backward) ds)
   && existsb (fun c => has_index s (fst c)) conds
   && negb (zlist_eqb (zsortf (find_by_props s conds)) (zsortf (scan_by_props s conds))).
-
-Definition col_witness (c : column) (o : cmpop) (q : value) : bool :=
-  existsb (fun x => sat o x q) (map snd (c_vals c)).
-Definition k_zone (backward node : bool) (ops : list op) (key : Z) (o : cmpop) (q : value) (round : bool) : bool :=
-  let s := run (init backward) ops in
-  match zget (if node then nprops s else eprops s) key with
-  | Some c => negb (col_might_match c o q) && col_witness c o q
-              && (if round then k_zone_round_col c o q else k_zone_ne_col c o q)
-  | None => false
-  end.
-
-(** C14-K4 through a range lookup: find_nodes_in_range prunes although the scan finds a node *)
-Definition k_range (backward : bool) (ops : list op) (key : Z) (lo hi : option value) (li hi_i : bool) : bool :=
-  let s := run (init backward) ops in
-  ps_range_class (nprops s) key lo hi li hi_i
-  && negb (zlist_eqb (zsortf (find_in_range s key lo hi li hi_i)) (zsortf (scan_in_range s key lo hi li hi_i))).
-
-Definition stats_eqb (a b : stats) : bool :=
-  (s_nodes a =? s_nodes b) && (s_edges a =? s_edges b)
-  && plist_eqb (psort (s_labels a)) (psort (s_labels b)) && plist_eqb (psort (s_etypes a)) (psort (s_etypes b)).
-Definition k_stats_label (backward : bool) (ops : list op) : bool :=
-  let s := run (init backward) ops in
-  hist_label_unflagged (init backward) ops && negb (stats_dirty s)
-  && negb (stats_eqb (stats_cur s) (compute_stats s)).
